@@ -214,4 +214,33 @@ theorem sameView_metadata (kvs m m' : Kvs) (extra : List (List String))
       simp only [resolveE_obj_cons, hk2]
   · simp only [isDRS, get?, lookup_insert_other _ kvs (by decide : "kind" ≠ "metadata"), lookup_insert_same, hm, hown]
 
+/-- the status stanza changes, the handler fields' own values do not. -/
+theorem sameView_insert_status' (kvs : Kvs) (v : J) (extra : List (List String))
+    (hx : ∀ f, f ∈ extra → resolveE (.obj (J.insert "status" v kvs)) f = resolveE (.obj kvs) f) :
+    SameView extra (J.insert "status" v kvs) kvs := by
+  refine ⟨erase4_insert_status v kvs, ?_, ?_, lookup_insert_other v kvs (by decide), ?_⟩
+  · intro f hf
+    rcases List.mem_append.1 hf with h | h
+    · simp at h
+      rcases h with h | h <;> subst h <;>
+        rw [resolveE_obj_cons, resolveE_obj_cons, lookup_insert_other v kvs (by decide : "metadata" ≠ "status")]
+    · exact hx f h
+  · simp only [isDRS, get?, lookup_insert_other v kvs (by decide : "kind" ≠ "status"),
+      lookup_insert_other v kvs (by decide : "metadata" ≠ "status")]
+  · simp only [ownerRefs, get?, lookup_insert_other v kvs (by decide : "metadata" ≠ "status")]
+
+theorem sameView_erase_status' (kvs : Kvs) (extra : List (List String))
+    (hx : ∀ f, f ∈ extra → resolveE (.obj (erase "status" kvs)) f = resolveE (.obj kvs) f) :
+    SameView extra (erase "status" kvs) kvs := by
+  refine ⟨erase4_erase_status kvs, ?_, ?_, lookup_erase_other kvs (by decide), ?_⟩
+  · intro f hf
+    rcases List.mem_append.1 hf with h | h
+    · simp at h
+      rcases h with h | h <;> subst h <;>
+        rw [resolveE_obj_cons, resolveE_obj_cons, lookup_erase_other kvs (by decide : "metadata" ≠ "status")]
+    · exact hx f h
+  · simp only [isDRS, get?, lookup_erase_other kvs (by decide : "kind" ≠ "status"),
+      lookup_erase_other kvs (by decide : "metadata" ≠ "status")]
+  · simp only [ownerRefs, get?, lookup_erase_other kvs (by decide : "metadata" ≠ "status")]
+
 end Kopf.C04
